@@ -263,6 +263,8 @@ def fall_cases(draw):
             dict(k="composite", parts=[dict(k="const", d=h, v=0.0), dict(k="ramp", d=d - h if d > h else 1, a=0.0, b=x)]),
             dict(k="composite", parts=[dict(k="ramp", d=h, a=x, b=0.0), dict(k="const", d=d - h if d > h else 1, v=0.0)]),
             dict(k="interp", d=d, values=[0.0, 0.0, 0.1 * x, x]),
+            # a short tail of the opposite sign: the output crosses zero on its way down
+            dict(k="composite", parts=[dict(k="const", d=d, v=x), dict(k="const", d=48, v=-0.2 * x)]),
         ]))
         amp = dict(k="blackman", d=_wf_d(det), area=1.0)
         p = dict(k="pulse", amp=amp, det=det, phase=0.0)
